@@ -809,6 +809,24 @@ def check_hook_contained(ctx, eng, fn) -> None:
                 names = ["*"] if h.type is None else [source.src(x).split(".")[-1] for x in (h.type.elts if isinstance(h.type, ast.Tuple) else [h.type])]
                 for nm in names:
                     caught.setdefault(nm, h)
+        # a handler around the hook CALL that records an ALLOWING context (hook not available -> plain restart) is the documented case
+        # "the hook could not be read": the I/O error family only.  Any other class there turns a hook that RAISES (e.g. a lazy import
+        # of a missing package inside Restart(): ImportError) into a restart instead of a refusal (seed C12-14)
+        IO_FAMILY = {"IOError", "OSError", "EnvironmentError", "FileNotFoundError", "PermissionError", "IsADirectoryError", "NotADirectoryError"}
+        for t in enclosing:
+            for h in t.handlers:
+                sets_h = [codes_key(x.value, "restartContexts") for st in h.body for x in ast.walk(st)
+                          if isinstance(x, ast.Assign) and any(isinstance(tg, ast.Name) and tg.id == RCTX for tg in x.targets)]
+                if not any(k in ALLOWING for k in sets_h if k is not None):
+                    continue
+                names_h = ["*"] if h.type is None else [source.src(x).split(".")[-1] for x in (h.type.elts if isinstance(h.type, ast.Tuple) else [h.type])]
+                wide = [nm for nm in names_h if nm not in IO_FAMILY]
+                ctx.ob(RID, h, not wide,
+                       "the handler of the hook call that allows a plain restart catches I/O errors only (%s)" % ", ".join(names_h) if not wide else
+                       "a handler around the call of the restart hook turns %s raised BY the hook into 'hook not available' - a plain restart: a hook "
+                       "that fails (a lazy import of a missing package inside Restart()) restarts the task, up to maxRestarts times, instead of "
+                       "refusing the restart and letting the component receive its final state" % ", ".join(wide),
+                       construct="hook call: allowing handler <- I/O errors only")
         for need, alts in (("Exception", ("Exception", "BaseException", "*")), ("SystemExit", ("SystemExit", "BaseException", "*"))):
             hs = [caught[a] for a in alts if a in caught]
             ok = bool(hs)
